@@ -69,7 +69,7 @@ impl<T: 'static + GcManaged + ?Sized> GcBox<T> {
             println!("{:?} mark", self as *const _);
         }
         #[cfg(feature = "verif_hooks")]
-        let _verif_guard = verif::enter_box(self as *const _ as *const () as usize);
+        let _verif_guard = verif::enter_box(self as *const _ as *const () as usize, false);
         self.data.mark();
     }
 
@@ -83,7 +83,7 @@ impl<T: 'static + GcManaged + ?Sized> GcBox<T> {
             println!("{:?} blacken", self as *const _);
         }
         #[cfg(feature = "verif_hooks")]
-        let _verif_guard = verif::enter_box(self as *const _ as *const () as usize);
+        let _verif_guard = verif::enter_box(self as *const _ as *const () as usize, true);
         self.data.blacken();
     }
 
@@ -619,8 +619,9 @@ pub mod verif {
     pub struct CollectionDump {
         /// (address, num_roots, size) of every box, in heap order, before marking.
         pub objects: Vec<(usize, usize, usize)>,
-        /// (parent address or 0 for the collector itself, child address, is_blacken)
-        pub calls: Vec<(usize, usize, bool)>,
+        /// (parent address or 0 for the collector itself, whether the parent's `blacken` body (rather
+        /// than its `mark` body) made the call, child address, whether `blacken` was called on it)
+        pub calls: Vec<(usize, bool, usize, bool)>,
         pub retained: Vec<usize>,
         pub bytes_freed: usize,
     }
@@ -638,7 +639,7 @@ pub mod verif {
         allocs: Vec<AllocEvent>,
         dump_collections: bool,
         in_collection: bool,
-        parents: Vec<usize>,
+        parents: Vec<(usize, bool)>,
         current: CollectionDump,
         dumps: Vec<CollectionDump>,
         max_dumps: usize,
@@ -877,8 +878,8 @@ pub mod verif {
         STATE.with(|s| {
             let mut s = s.borrow_mut();
             if s.in_collection {
-                let parent = s.parents.last().copied().unwrap_or(0);
-                s.current.calls.push((parent, addr, is_blacken));
+                let (parent, in_blacken_body) = s.parents.last().copied().unwrap_or((0, false));
+                s.current.calls.push((parent, in_blacken_body, addr, is_blacken));
             }
         });
     }
@@ -895,11 +896,11 @@ pub mod verif {
         }
     }
 
-    pub(super) fn enter_box(addr: usize) -> BoxGuard {
+    pub(super) fn enter_box(addr: usize, in_blacken_body: bool) -> BoxGuard {
         STATE.with(|s| {
             let mut s = s.borrow_mut();
             if s.in_collection {
-                s.parents.push(addr);
+                s.parents.push((addr, in_blacken_body));
                 BoxGuard(true)
             } else {
                 BoxGuard(false)
